@@ -38,7 +38,9 @@ import (
 
 type proxyConn struct {
 	*Proxy
-	brw    *bufio.ReadWriter
+	brw *bufio.ReadWriter
+	// src is the source of brw.Reader.
+	src    *connReader
 	conn   net.Conn
 	secure bool
 	// mitm is set once the connection carries an intercepted TLS session.
@@ -46,10 +48,39 @@ type proxyConn struct {
 	cs   tls.ConnectionState
 }
 
+// maxRequestHeadBytes is the most that is read from a connection for one request head,
+// see http.DefaultMaxHeaderBytes.
+const maxRequestHeadBytes = 1 << 20
+
+var errRequestHeadTooLarge = errors.New("martian: request head too large")
+
+// connReader is what the connection's buffered reader reads from.
+// While a request head is being read it hands out no more than limit bytes.
+type connReader struct {
+	r     io.Reader
+	limit int64 // negative means no limit
+}
+
+func (c *connReader) Read(b []byte) (int, error) {
+	if c.limit == 0 {
+		return 0, errRequestHeadTooLarge
+	}
+	if c.limit > 0 && int64(len(b)) > c.limit {
+		b = b[:c.limit]
+	}
+	n, err := c.r.Read(b)
+	if c.limit > 0 {
+		c.limit -= int64(n)
+	}
+	return n, err
+}
+
 func newProxyConn(p *Proxy, conn net.Conn) *proxyConn {
+	src := &connReader{r: conn, limit: -1}
 	return &proxyConn{
 		Proxy: p,
-		brw:   bufio.NewReadWriter(bufio.NewReader(conn), bufio.NewWriter(conn)),
+		brw:   bufio.NewReadWriter(bufio.NewReader(src), bufio.NewWriter(conn)),
+		src:   src,
 		conn:  conn,
 	}
 }
@@ -109,7 +140,10 @@ func (p *proxyConn) readRequest() (*http.Request, error) {
 		log.Error(context.TODO(), "can't set read header deadline", "error", deadlineErr)
 	}
 
+	// A request head the client never ends must not be buffered without end.
+	p.src.limit = maxRequestHeadBytes
 	req, err := http.ReadRequest(p.brw.Reader)
+	p.src.limit = -1
 	if err != nil {
 		return nil, err
 	}
@@ -224,7 +258,8 @@ func (p *proxyConn) handleMITM(req *http.Request) error {
 		}
 
 		p.brw.Writer.Reset(tlsconn)
-		p.brw.Reader.Reset(tlsconn)
+		p.src.r = tlsconn
+		p.brw.Reader.Reset(p.src)
 
 		p.conn = tlsconn
 		p.secure = true
@@ -235,7 +270,8 @@ func (p *proxyConn) handleMITM(req *http.Request) error {
 	}
 
 	// Prepend the previously read data to be read again by http.ReadRequest.
-	p.brw.Reader.Reset(io.MultiReader(bytes.NewReader(buf), p.conn))
+	p.src.r = io.MultiReader(bytes.NewReader(buf), p.conn)
+	p.brw.Reader.Reset(p.src)
 	return nil
 }
 
